@@ -147,6 +147,16 @@ def _history(args):
                                                               {"name": "Cryptographic Usage Mask", "v": ["ENCRYPT"]}]}))
                 sweep.append(("Get", {"uid": u, "wrap": {"kuid": keys["k16"], "mode": "NIST_KEY_WRAP"}}))
                 sweep.append(("Get", {"uid": u, "wrap": {"kuid": keys["k32"], "mode": "CBC"}}))
+            # every Register refusal path: secret material under every key format type, object type and a wrong length
+            from kmip.core import enums as kenums
+            for fmt in [f.name for f in kenums.KeyFormatType]:
+                for (ot, tok, extra) in (("SymmetricKey", "k16", {"alg": "AES", "len": 128}), ("SymmetricKey", "k32", {"alg": "AES", "len": 128}),
+                                         ("SymmetricKey", "k16", {"alg": "TRIPLE_DES", "len": 192}),
+                                         ("PrivateKey", "rsapriv", {"alg": "RSA", "len": 1024}), ("PrivateKey", "k32", {"alg": "RSA", "len": 2048}),
+                                         ("PublicKey", "k32", {"alg": "RSA", "len": 1024}), ("SecretData", "pw", {}),
+                                         ("SplitKey", "k16", {"alg": "AES", "len": 128, "parts": 3, "part": 1, "threshold": 2, "method": "XOR"})):
+                    sweep.append(("Register", {"otype": ot, "attrs": [{"name": "Cryptographic Usage Mask", "v": ["ENCRYPT"]}],
+                                               "obj": dict({"type": ot, "val": tok, "fmt": fmt}, **extra)}))
             for j, (op, p) in enumerate(sweep):
                 if j % 4 != wid:
                     continue
